@@ -563,6 +563,152 @@ theorem expr_matches (cp : Bool) (env : Nat → Nat × Int)
           · simp [hint] at h
 
 
+/-! ## Values: a Python bool on either side of an integer Var (all values) -/
+
+/-- generated table: a Python bool next to an integer Var (promotion on or off, constant promotion on) is wrapped as a
+    Constant of the Var's own element type; the Var is cast (promotion on) or passed on as it is -/
+theorem int_bool_shape :
+    ∀ tp ∈ [true, false], ∀ b ∈ [true, false], ∀ op ∈ intOps, ∀ da ∈ ints,
+      ((match dispatch info (some (tp, true)) op (.var da) (.pyBool b) with
+        | .ok (tree, d) => tree == arithTree info op da (varTree tp da 0) (.constOf 1 da) && d == da
+        | .error _ => false) &&
+       (match dispatch info (some (tp, true)) op (.pyBool b) (.var da) with
+        | .ok (tree, d) => tree == arithTree info op da (.constOf 0 da) (varTree tp da 1) && d == da
+        | .error _ => false) &&
+       info.integer da && da != boolDt && decide (2 ≤ info.bits da) && inRange info da 1 && inRange info da 0) = true := by
+  decide +kernel
+
+/-- **`x <op> True/False` and `True/False <op> y` on integer Vars** (`+ - * //`; a Python bool is an int: 1 / 0) for all
+    values of the Var: numpy's wrapped exact result in the Var's element type. -/
+theorem arith_bool_right (tp : Bool) (htp : tp ∈ [true, false]) (b : Bool) (op : Op) (hop : op ∈ intOps)
+    (da : Nat) (hda : da ∈ ints) (x : Int) (hx : inRange info da x = true)
+    (hdiv : op = .floordiv → b2i b ≠ 0 ∧ ¬(x = intMin da ∧ b2i b = -1)) :
+    ∃ tree, dispatch info (some (tp, true)) op (.var da) (.pyBool b) = .ok (tree, da) ∧
+      eval info (.var da) (.pyBool b) x (b2i b) tree = some (da, npInt info op da x (b2i b)) := by
+  have hb : b ∈ [true, false] := by cases b <;> simp
+  have h := int_bool_shape tp htp b hb op hop da hda
+  simp only [Bool.and_eq_true, decide_eq_true_eq, bne_iff_ne, ne_eq] at h
+  obtain ⟨⟨⟨⟨⟨⟨hr, _⟩, hint⟩, htb⟩, hbits⟩, h1⟩, h0⟩ := h
+  cases hdisp : dispatch info (some (tp, true)) op (.var da) (.pyBool b) with
+  | error e => simp [hdisp] at hr
+  | ok p =>
+    obtain ⟨tree, d⟩ := p
+    simp only [hdisp, Bool.and_eq_true, beq_iff_eq] at hr
+    obtain ⟨rfl, rfl⟩ := hr
+    refine ⟨_, rfl, ?_⟩
+    have hv : inRange info d (b2i b) = true := by cases b <;> simpa [b2i] using (by assumption)
+    apply arith_eval _ _ op hop d hint htb hbits _ _ x (b2i b) _ _ hx hv hdiv
+    · exact eval_varTree tp _ _ d 0 x (b2i b) hint htb hbits rfl hx
+    · simp [eval, hint]
+
+theorem arith_bool_left (tp : Bool) (htp : tp ∈ [true, false]) (b : Bool) (op : Op) (hop : op ∈ intOps)
+    (da : Nat) (hda : da ∈ ints) (y : Int) (hy : inRange info da y = true)
+    (hdiv : op = .floordiv → y ≠ 0 ∧ ¬(b2i b = intMin da ∧ y = -1)) :
+    ∃ tree, dispatch info (some (tp, true)) op (.pyBool b) (.var da) = .ok (tree, da) ∧
+      eval info (.pyBool b) (.var da) (b2i b) y tree = some (da, npInt info op da (b2i b) y) := by
+  have hb : b ∈ [true, false] := by cases b <;> simp
+  have h := int_bool_shape tp htp b hb op hop da hda
+  simp only [Bool.and_eq_true, decide_eq_true_eq, bne_iff_ne, ne_eq] at h
+  obtain ⟨⟨⟨⟨⟨⟨_, hl⟩, hint⟩, htb⟩, hbits⟩, h1⟩, h0⟩ := h
+  cases hdisp : dispatch info (some (tp, true)) op (.pyBool b) (.var da) with
+  | error e => simp [hdisp] at hl
+  | ok p =>
+    obtain ⟨tree, d⟩ := p
+    simp only [hdisp, Bool.and_eq_true, beq_iff_eq] at hl
+    obtain ⟨rfl, rfl⟩ := hl
+    refine ⟨_, rfl, ?_⟩
+    have hv : inRange info d (b2i b) = true := by cases b <;> simpa [b2i] using (by assumption)
+    apply arith_eval _ _ op hop d hint htb hbits _ _ (b2i b) y _ _ hv hy hdiv
+    · simp [eval, hint]
+    · exact eval_varTree tp _ _ d 1 (b2i b) y hint htb hbits rfl hy
+
+-- non-vacuity: x - True on a uint8 Var (dtype 4) at x = 0 wraps to 255
+example : ∃ tree, dispatch info (some (true, true)) .sub (.var 4) (.pyBool true) = .ok (tree, 4) ∧
+    eval info (.var 4) (.pyBool true) 0 1 tree = some (4, 255) := by
+  obtain ⟨tree, h1, h2⟩ := arith_bool_right true (by simp) true .sub (by simp [intOps]) 4 (by simp [ints]) 0
+    (by decide +kernel) (fun h => by simp at h)
+  refine ⟨tree, h1, ?_⟩
+  change eval info (.var 4) (.pyBool true) 0 (b2i true) tree = _
+  rw [h2]; decide +kernel
+
+
+/-! ## Values: a numpy integer scalar on either side of an integer Var (all values) -/
+
+/-- generated table: a numpy integer scalar of dtype `db` (operand kind `15 + db`) next to an integer Var of dtype `da`,
+    promotion on: where numpy's promoted type `t` is an integer type, the Var is cast to `t`, the scalar becomes a
+    Constant of type `t`, and both operand ranges embed in `t` -/
+theorem int_npscalar_shape :
+    ∀ cp ∈ [true], ∀ op ∈ intOps, ∀ da ∈ ints, ∀ db ∈ ints,
+      (match info.rt2 da (15 + db) with
+       | some t => !info.integer t ||
+           ((match dispatch info (some (true, cp)) op (.var da) (.npScalar db) with
+             | .ok (tree, d) => tree == arithTree info op t (.cast t (.arg 0)) (.constOf 1 t) && d == t
+             | .error _ => false) &&
+            (match dispatch info (some (true, cp)) op (.npScalar db) (.var da) with
+             | .ok (tree, d) => tree == arithTree info op t (.constOf 0 t) (.cast t (.arg 1)) && d == t
+             | .error _ => false) &&
+            info.rt2 (15 + db) da == some t &&
+            t != boolDt && rangeSub info da t && rangeSub info db t && decide (2 ≤ info.bits t))
+       | none => true) = true := by
+  decide +kernel
+
+/-- **`x <op> np.intN(v)` and `np.intN(v) <op> y`** (a numpy integer scalar on either side of an integer Var, promotion
+    and constant promotion on): wherever numpy's promoted type is an integer type, for all values of the Var and of the
+    scalar the emitted tree evaluates to numpy's wrapped exact result in the promoted type. -/
+theorem arith_npscalar_right (op : Op) (hop : op ∈ intOps) (da db : Nat) (hda : da ∈ ints) (hdb : db ∈ ints)
+    (t : Nat) (ht : info.rt2 da (15 + db) = some t) (hint : info.integer t = true)
+    (x v : Int) (hx : inRange info da x = true) (hv : inRange info db v = true)
+    (hdiv : op = .floordiv → v ≠ 0 ∧ ¬(x = intMin t ∧ v = -1)) :
+    ∃ tree, dispatch info (some (true, true)) op (.var da) (.npScalar db) = .ok (tree, t) ∧
+      eval info (.var da) (.npScalar db) x v tree = some (t, npInt info op t x v) := by
+  have h := int_npscalar_shape true (by simp) op hop da hda db hdb
+  simp only [ht, hint, Bool.not_true, Bool.false_or, Bool.and_eq_true, decide_eq_true_eq, bne_iff_ne, ne_eq] at h
+  obtain ⟨⟨⟨⟨⟨⟨hr, _⟩, _⟩, htb⟩, hra⟩, hrb⟩, hbits⟩ := h
+  cases hdisp : dispatch info (some (true, true)) op (.var da) (.npScalar db) with
+  | error e => simp [hdisp] at hr
+  | ok p =>
+    obtain ⟨tree, d⟩ := p
+    simp only [hdisp, Bool.and_eq_true, beq_iff_eq] at hr
+    obtain ⟨rfl, rfl⟩ := hr
+    refine ⟨_, rfl, ?_⟩
+    have hxt := inRange_mono info da d hra x hx
+    have hvt := inRange_mono info db d hrb v hv
+    have htb' : (d == boolDt) = false := by simpa using htb
+    apply arith_eval _ _ op hop d hint htb hbits _ _ x v _ _ hxt hvt hdiv
+    · simp [eval, hint, htb', wrap_id info d (by omega) x hxt]
+    · simp [eval, hint]
+
+theorem arith_npscalar_left (op : Op) (hop : op ∈ intOps) (da db : Nat) (hda : da ∈ ints) (hdb : db ∈ ints)
+    (t : Nat) (ht : info.rt2 da (15 + db) = some t) (hint : info.integer t = true)
+    (v y : Int) (hv : inRange info db v = true) (hy : inRange info da y = true)
+    (hdiv : op = .floordiv → y ≠ 0 ∧ ¬(v = intMin t ∧ y = -1)) :
+    ∃ tree, dispatch info (some (true, true)) op (.npScalar db) (.var da) = .ok (tree, t) ∧
+      eval info (.npScalar db) (.var da) v y tree = some (t, npInt info op t v y) := by
+  have h := int_npscalar_shape true (by simp) op hop da hda db hdb
+  simp only [ht, hint, Bool.not_true, Bool.false_or, Bool.and_eq_true, decide_eq_true_eq, bne_iff_ne, ne_eq] at h
+  obtain ⟨⟨⟨⟨⟨⟨_, hl⟩, _⟩, htb⟩, hra⟩, hrb⟩, hbits⟩ := h
+  cases hdisp : dispatch info (some (true, true)) op (.npScalar db) (.var da) with
+  | error e => simp [hdisp] at hl
+  | ok p =>
+    obtain ⟨tree, d⟩ := p
+    simp only [hdisp, Bool.and_eq_true, beq_iff_eq] at hl
+    obtain ⟨rfl, rfl⟩ := hl
+    refine ⟨_, rfl, ?_⟩
+    have hyt := inRange_mono info da d hra y hy
+    have hvt := inRange_mono info db d hrb v hv
+    have htb' : (d == boolDt) = false := by simpa using htb
+    apply arith_eval _ _ op hop d hint htb hbits _ _ v y _ _ hvt hyt hdiv
+    · simp [eval, hint]
+    · simp [eval, hint, htb', wrap_id info d (by omega) y hyt]
+
+-- non-vacuity: int8 Var + np.int32(1000): numpy 2 promotes to int32 (dtype 2), no wrap at int8
+example : ∃ tree, dispatch info (some (true, true)) .add (.var 0) (.npScalar 2) = .ok (tree, 2) ∧
+    eval info (.var 0) (.npScalar 2) 100 1000 tree = some (2, 1100) := by
+  obtain ⟨tree, h1, h2⟩ := arith_npscalar_right .add (by simp [intOps]) 0 2 (by simp [ints]) (by simp [ints]) 2
+    (by decide +kernel) (by decide +kernel) 100 1000 (by decide +kernel) (by decide +kernel) (fun h => by simp at h)
+  exact ⟨tree, h1, by rw [h2]; decide +kernel⟩
+
+
 /-! ## Expressions with Python int literals on either side -/
 
 /-- Expressions over integer Vars **and Python int literals** on either side of an operator. -/
@@ -792,6 +938,68 @@ theorem neg_matches (s : Bool × Bool) (d : Nat) (hd : d ∈ [0, 1, 2, 3]) (x : 
     simp only [hdisp, Bool.and_eq_true, beq_iff_eq] at h'
     obtain ⟨rfl, rfl⟩ := h'
     rfl
+
+/-! ## How a block is opened: an explicit `False` is not "unset"; nothing is inherited from the enclosing block -/
+
+/-- Obligation (tie G): the defaults in the signature of `operator_overloading` are the documented ones. -/
+theorem oo_defaults : ooDefaultsKnown = true ∧ ooDefaults = (false, true) := by decide
+
+/-- **A given option is taken as given** - `type_promotion=False` (and `constant_promotion=False`) included; only an
+    omitted option takes the default. -/
+theorem explicit_option_kept (b b' : Bool) :
+    (OOCall.settings ooDefaults ⟨some b, some b'⟩) = (b, b') ∧
+    (OOCall.settings ooDefaults ⟨some b, none⟩) = (b, true) ∧
+    (OOCall.settings ooDefaults ⟨none, some b'⟩) = (false, b') ∧
+    (OOCall.settings ooDefaults ⟨none, none⟩) = (false, true) := by
+  simp [OOCall.settings, oo_defaults.2]
+
+/-- **The settings inside a block are those of ITS call, whatever block encloses it**: in particular an inner
+    `type_promotion=False` (explicit or by default) inside an outer `type_promotion=True` switches promotion off. -/
+theorem inner_call_not_inherited (cur : Option (Bool × Bool)) (c : OOCall) (body : List ScopedC) :
+    Scoped.probes cur ((ScopedC.block c (.probe :: body)).toScoped ooDefaults)
+      = some (c.settings ooDefaults) ::
+          probesList (some (c.settings ooDefaults)) (ScopedC.listToScoped ooDefaults body) := by
+  simp [ScopedC.toScoped, ScopedC.listToScoped, Scoped.probes, probesList]
+
+/-- ... so inside an inner block opened with promotion off - explicitly or by omission - within ANY enclosing block,
+    Vars of different element types and a Python float meeting an integer Var are TypeError (operands as in
+    `no_promotion_strict`: here the two probes the scoped histories make). -/
+theorem inner_false_is_strict (outer : Bool × Bool) :
+    ∀ c ∈ [OOCall.mk (some false) (some true), ⟨some false, none⟩, ⟨none, some true⟩, ⟨none, none⟩, ⟨some false, some false⟩],
+      Scoped.probes none ((ScopedC.block ⟨some outer.1, some outer.2⟩ [.block c [.probe]]).toScoped ooDefaults)
+          = [some (false, (c.settings ooDefaults).2)] ∧
+        isErr (dispatch info (some (c.settings ooDefaults)) .add (.var 3) (.var 9)) .typeError = true ∧
+        isErr (dispatch info (some (c.settings ooDefaults)) .add (.var 2) .pyFloat) .typeError = true := by
+  have h : ∀ c ∈ [OOCall.mk (some false) (some true), ⟨some false, none⟩, ⟨none, some true⟩, ⟨none, none⟩, ⟨some false, some false⟩],
+      (c.settings ooDefaults).1 = false ∧
+      isErr (dispatch info (some (c.settings ooDefaults)) .add (.var 3) (.var 9)) .typeError = true ∧
+      isErr (dispatch info (some (c.settings ooDefaults)) .add (.var 2) .pyFloat) .typeError = true := by decide +kernel
+  intro c hc
+  obtain ⟨h1, h2, h3⟩ := h c hc
+  refine ⟨?_, h2, h3⟩
+  simp only [ScopedC.toScoped, ScopedC.listToScoped, Scoped.probes, probesList, List.append_nil]
+  rw [← h1]
+
+/-! ## Python floats are judged by type, not by value -/
+
+/-- Obligation (tie G, numpy executed on this run): for whole-number (`2.0`, `-3.0`, `0.0`, `-0.0`, `1.0`, `2**53`),
+    huge, tiny and non-finite Python floats alike, `np.result_type(v)` and `np.result_type(dtype, v)` are what they are
+    for the `2.5` the promotion tables are made with, and every one of them is a constant for `isinstance`. The
+    operand kind `pyFloat` of the model therefore stands for EVERY Python float. -/
+theorem float_judged_by_type :
+    ∀ f ∈ floatSamples, f.2.2.1 = true ∧ f.2.2.2.1 = info.rt1 13 ∧
+      f.2.2.2.2 = (List.range 12).map (fun d => info.rt2 d 13) := by decide +kernel
+
+/-- non-vacuity: whole-number samples are among them -/
+example : ∃ f ∈ floatSamples, f.1 = "2.0" ∧ f.2.1 = true := by decide +kernel
+example : ∃ f ∈ floatSamples, f.1 = "-3.0" ∧ f.2.1 = true := by decide +kernel
+
+/-- **With promotion off a Python float next to an integer Var is TypeError whatever its value** (`2.0`, `-3.0`, `0.0`
+    like `1.5`): every integer dtype, either side, all five arithmetic operators, both constant-promotion settings. -/
+theorem float_constant_strict :
+    ∀ cp ∈ [true, false], ∀ op ∈ binOps, ∀ d ∈ [0, 1, 2, 3, 4, 5, 6, 7],
+      isErr (dispatch info (some (false, cp)) op (.var d) .pyFloat) .typeError = true ∧
+      isErr (dispatch info (some (false, cp)) op .pyFloat (.var d)) .typeError = true := by decide +kernel
 
 /-! ## The wiring: Python's operators reach the dispatcher methods the theorems are about -/
 
